@@ -86,6 +86,7 @@ def alphabet(rng):
 
 def random_history(rng, n):
     nin, nout = 2, 2
+    other = None
     ops, size, tag = [], 0, 100
     for _ in range(n):
         tag += 1
@@ -128,6 +129,10 @@ def random_history(rng, n):
                 o = "go"
             elif c == 4:
                 o = rng.choice(["svc.%d" % rng.randrange(2 ** 32), "fk", "sw", "sw", "fb", "fh", "fj", "fc"])
+                if o == "fk":
+                    other = (nin, nout)
+                elif o == "sw" and other is not None:
+                    (nin, nout), other = other, (nin, nout)
             elif c == 5:
                 o = "slc.%d" % rng.randrange(2 ** 32)
             else:
